@@ -244,7 +244,7 @@ func TestDeserializerScripts(t *testing.T) {
 
 func TestOtherDecoders(t *testing.T) {
 	const check = "orderedmap_typeutils_decoders"
-	stats.Rule(check, "SerializableOrderedMap[uint16,uint32].Decode, SerializableOrderedMap[string-with-uint8-prefix,[]byte-with-uint16-prefix].Decode and typeutils.Uint64FromBytes/ByteArray32FromBytes on random inputs of 0..80 bytes and on inputs starting with a hostile uint32 entry count; oracle: no panic, consumed <= len(input), allocation cap. Distinct by (decoder, input); non-trivial = input longer than the size prefix")
+	stats.Rule(check, "SerializableOrderedMap[uint16,uint32].Decode, SerializableOrderedMap[string-with-uint8-prefix,[]byte-with-uint16-prefix].Decode, SerializableOrderedMap[interface key with a number and a byte-slice implementation, uint8].Decode and typeutils.Uint64FromBytes/ByteArray32FromBytes on random inputs of 0..80 bytes and on inputs starting with a hostile uint32 entry count; oracle: no panic, consumed <= len(input), allocation cap. Distinct by (decoder, input); non-trivial = input longer than the size prefix")
 	type kstr string
 	type vbytes []byte
 	api := serix.NewAPI()
@@ -254,13 +254,31 @@ func TestOtherDecoders(t *testing.T) {
 	if err := api.RegisterTypeSettings(vbytes(nil), serix.TypeSettings{}.WithLengthPrefixType(serix.LengthPrefixTypeAsUint16)); err != nil {
 		t.Fatal(err)
 	}
+	// an interface-typed key whose implementations (NumKey: a number, ListKey: a byte slice - not comparable) are
+	// selected by the input (regression_orderedmap_test.go)
+	if err := api.RegisterTypeSettings(NumKey(0), serix.TypeSettings{}.WithObjectType(uint8(0))); err != nil {
+		t.Fatal(err)
+	}
+	if err := api.RegisterTypeSettings(ListKey{}, serix.TypeSettings{}.WithObjectType(uint8(1)).WithLengthPrefixType(serix.LengthPrefixTypeAsByte)); err != nil {
+		t.Fatal(err)
+	}
+	if err := api.RegisterInterfaceObjects((*omKey)(nil), NumKey(0), ListKey{}); err != nil {
+		t.Fatal(err)
+	}
 	_ = context.Background()
 	rapid.Check(t, func(rt *rapid.T) {
 		input := rapid.SliceOfN(rapid.Byte(), 0, 80).Draw(rt, "input")
 		if rapid.Bool().Draw(rt, "hostileCount") && len(input) >= 4 {
 			copy(input, rapid.SampledFrom([][]byte{{0xff, 0xff, 0xff, 0xff}, {0, 0, 0, 0x40}, {3, 0, 0, 0}, {0, 1, 0, 0}}).Draw(rt, "count"))
 		}
-		which := rapid.SampledFrom([]string{"omap_u16_u32", "omap_str_bytes", "Uint64FromBytes", "ByteArray32FromBytes"}).Draw(rt, "decoder")
+		which := rapid.SampledFrom([]string{"omap_u16_u32", "omap_str_bytes", "omap_ifacekey_u8", "Uint64FromBytes", "ByteArray32FromBytes"}).Draw(rt, "decoder")
+		if which == "omap_ifacekey_u8" && len(input) >= 7 && rapid.Bool().Draw(rt, "shapedEntries") {
+			// entries that look like (type code, key, value) so that both implementations are reached
+			copy(input, []byte{2, 0, 0, 0})
+			for i := 4; i+2 < len(input); i += 3 {
+				input[i] &= 1
+			}
+		}
 		ex := map[string]any{"decoder": which, "input": hex.EncodeToString(input)}
 		var n int
 		var pan any
@@ -271,6 +289,8 @@ func TestOtherDecoders(t *testing.T) {
 					n, _ = serializableorderedmap.New[uint16, uint32]().Decode(api, input)
 				case "omap_str_bytes":
 					n, _ = serializableorderedmap.New[kstr, vbytes]().Decode(api, input)
+				case "omap_ifacekey_u8":
+					n, _ = serializableorderedmap.New[omKey, uint8]().Decode(api, input)
 				case "Uint64FromBytes":
 					_, n, _ = typeutils.Uint64FromBytes(input)
 				case "ByteArray32FromBytes":
